@@ -1,7 +1,7 @@
 """correspondence stream `kern`: the Lean ports (Model/Kernels.lean, evaluated in IEEE double by the
 driver) of BHJM_dipole, BHJM_magnet_sphere, current_polyline_Hfield and the Cuboid mask dispatch
 against the real functions, row by row.  Floats travel as 64-bit patterns; values are compared
-with |a-b| <= 1e-10*max(|a|,|b|,scale) (operation order differs slightly; 1e-7 for the triangle
+with |a-b| <= 1e-10*max(|a|,|b|,scale) (operation order differs slightly; 1e-6 for the triangle
 sheets, whose closed form cancels near edge extensions), masks exactly.  Also: BHJM_triangle,
 BHJM_magnet_tetrahedron (chirality fix, inside test, four sheets), BHJM_circle with the Bulirsch cel
 iteration (special cases on the axis / on the wire / zero diameter).  Kind `cel0`: the scalar complete
